@@ -19,6 +19,10 @@ def one(m):
     try:
         for (fn, old, new) in m["edits"]:
             p = os.path.join(d, fn); s = open(p).read()
+            if old in ("__POOL__", "__STORE__"):
+                import alts_c
+                x, y = (alts_c.pool_region if old == "__POOL__" else alts_c.store_region)(s)
+                open(p, "w").write(s[:x] + new + "\n" + s[y:]); continue
             if s.count(old) != 1:
                 res["suite"] = f"EDIT-ERROR: pattern occurs {s.count(old)}x in {fn}"; return res
             open(p, "w").write(s.replace(old, new))
